@@ -14,7 +14,7 @@ edits, restarts with another target set, source changes and dispatched jobs, and
     targets) and that nothing is dispatched while ... is left: when no job is popped, no needed, ready step is PENDING.
 
 World: a source s.txt; steps A: s.txt -> d/o.txt, C: d/o.txt -> q.txt, B: q.txt or d/o.txt -> r.txt with needs that vary
-over six versions of the plan script (chains of optional steps, a dropped consumer, a DEFAULT producer under d/); target
+over seven versions of the plan script (chains of optional steps, a dropped consumer, a DEFAULT producer under d/); target
 sets: none, {r.txt}, {d/o.txt}, the directory d/."""
 
 from __future__ import annotations
@@ -27,7 +27,7 @@ from contracts import C09_bounded
 from vc import extract
 from vc.report import bounded
 
-OPS = ["run", "edit", "retarget", "touch"]
+OPS = ["build", "run", "edit", "retarget", "touch", "mode"]
 TARGET_SETS = [((), ()), (("r.txt",), ()), (("d/o.txt",), ()), ((), ("d/",))]
 
 
@@ -35,17 +35,39 @@ class World(C09_bounded.World):
     def __init__(self, m):
         super().__init__(m)
         self.tset = 0
+        self.mode_on = True  # content of mode.txt: whether ./sub1.py creates ./sub2.py
+
+    def script_for(self, label):
+        if label == "./sub1.py":
+            return self.sub1_script
+        if label == "./sub2.py":
+            return self.sub2_script
+        return super().script_for(label)
+
+    def sub1_script(self, step):
+        if self.mode_on:
+            self.wf.define_step(step, "./sub2.py", need=self.m["enums"].Need.PLAN)
+
+    def sub2_script(self, step):
+        # the consumer of the optional step's output is created two levels below the plan
+        self.wf.define_step(step, "B", inp_paths=["d/o.txt"], out_paths=["r.txt"], need=self.m["enums"].Need.DEFAULT)
 
     def plan_script(self, plan):
         wf, m = self.wf, self.m
         N = m["enums"].Need
-        v = self.version % 6
+        v = self.version % 7
         wf.declare_static_files(plan, ["s.txt"])
-        opt, dfl = N.OPTIONAL, N.DEFAULT
         if v == 0:
+            # three levels: plan -> ./sub1.py -> ./sub2.py -> B, which consumes the output of the optional step A
+            wf.declare_static_files(plan, ["mode.txt"])
+            wf.define_step(plan, "A", inp_paths=["s.txt"], out_paths=["d/o.txt"], need=N.OPTIONAL)
+            wf.define_step(plan, "./sub1.py", inp_paths=["mode.txt"], need=N.PLAN)
+            return
+        opt, dfl = N.OPTIONAL, N.DEFAULT
+        if v == 1:
             wf.define_step(plan, "A", inp_paths=["s.txt"], out_paths=["d/o.txt"], need=opt)
             wf.define_step(plan, "B", inp_paths=["d/o.txt"], out_paths=["r.txt"], need=dfl)
-        elif v == 1:
+        elif v == 6:
             wf.define_step(plan, "A", inp_paths=["s.txt"], out_paths=["d/o.txt"], need=opt)
         elif v == 2:
             wf.define_step(plan, "A", inp_paths=["s.txt"], out_paths=["d/o.txt"], need=opt)
@@ -142,12 +164,36 @@ class World(C09_bounded.World):
 
     async def op(self, name):
         m = self.m
+        if name == "mode":
+            # mode.txt is edited: the step that reads it runs again and creates (or no longer creates) ./sub2.py
+            self.mode_on = not self.mode_on
+            E = m["enums"]
+            st = await self.read(lambda: self.state_of("mode.txt"))
+            if st in (E.FileState.CONFIRMED, E.FileState.MISSING):
+                self.dirty |= await self.read(lambda: self.consumers_of("mode.txt"))
+                await self.tx(lambda: self.wf.update_file_hashes({"mode.txt": self.fh("mode")}, cause=E.HashUpdateCause.EXTERNAL))
+            return
         if name == "retarget":
             await self.retarget()
+            return
+        if name == "build":
+            # run jobs (and the hash jobs of files to be confirmed) until nothing can be dispatched
+            for _ in range(14):
+                before = self.counter, await self.read(lambda: self.db.execute(
+                    "SELECT COUNT(*) FROM step WHERE state = ?", (m["enums"].StepState.SUCCEEDED.value,)).fetchone()[0])
+                await super().op("confirm")
+                popped = await self.run_one()
+                if not popped:
+                    break
             return
         if name != "run":
             await super().op(name)
             return
+        await self.run_one()
+
+    async def run_one(self):
+        """One dispatch decision and the job it yields; returns whether a job was popped."""
+        m = self.m
         # a dispatch decision: compare the cached need with the fixed point right after the metadata pass
         cls = type(self.scheduler)
         orig = cls._get_next_step
@@ -166,7 +212,7 @@ class World(C09_bounded.World):
         finally:
             cls._get_next_step = orig
         if "cmp" not in seen:
-            return
+            return False
         want, labels, bad = seen["cmp"]
         if bad:
             raise C09_bounded.Internal(f"at a dispatch decision the cached need differs from the fixed point: {bad}")
@@ -176,6 +222,7 @@ class World(C09_bounded.World):
             step = r[0]
             if want.get(step.i, 99) <= thr and step.i in want:
                 raise C09_bounded.Internal(f"step {step.label} was dispatched with need {want[step.i]} <= threshold {thr}")
+        return r is not None
 
 
 async def _history(m, ops):
@@ -203,14 +250,15 @@ def _chunk(histories):
 
 
 @bounded("need_is_the_fixed_point", props=["C11"],
-         bound="exhaustive: every sequence of 4 operations (run a popped job, next plan version of 6, restart with the next "
-               "of 4 target sets, touch the source) of length <= 6 (quick) / <= 8 (thorough) after boot; after every "
+         bound="exhaustive: every sequence of 6 operations (complete the build, run one popped job, next plan version of 7, "
+               "restart with the next of 4 target sets, touch the source, toggle the mode file that decides whether a "
+               "sub-plan creates its sub-plan) of length <= 4 (quick) / <= 6 (thorough) after boot; after every "
                "dispatch decision the cached need of every attached step against the fixed point computed from scratch")
 def need_is_the_fixed_point(tier, seed):
     import concurrent.futures
     import multiprocessing
 
-    depth = 6 if tier == "quick" else 8
+    depth = 4 if tier == "quick" else 6
     histories = [("run",) + ops for length in range(0, depth + 1) for ops in itertools.product(OPS, repeat=length)]
     size = max(1, len(histories) // 128)
     chunks = [histories[i:i + size] for i in range(0, len(histories), size)]
